@@ -23,3 +23,30 @@ package gorp
 //@   ensures  __eq(d.state, old(d.state)) && __eq(d.forward, old(d.forward))
 //@   ensures  forall k K :: __in(d.state, k) == old(__in(d.state, k)) && d.state[k] == old(d.state[k])
 //@   modifies d.forward, d.forward[value]
+
+//@ func (d *delta[K, V]) removeFromForward(key K, value V)
+//@   tparams K Key, V comparable
+//@   requires BK(d)
+//@   ensures  BK(d)
+//@   ensures  forall v V, k K :: inF(d, v, k) == (old(inF(d, v, k)) && !(v == value && k == key))
+//@   ensures  __eq(d.state, old(d.state)) && __eq(d.forward, old(d.forward))
+//@   ensures  forall k K :: __in(d.state, k) == old(__in(d.state, k)) && d.state[k] == old(d.state[k])
+//@   modifies d.forward, d.forward[value]
+
+//@ # staging a write: the key now maps to (value, live); every other staged entry is untouched
+//@ func (d *delta[K, V]) stageSet(key K, value V)
+//@   tparams K Key, V comparable
+//@   requires DI(d)
+//@   ensures  DI(d)
+//@   ensures  __in(d.state, key) && !d.state[key].deleted && d.state[key].value == value
+//@   ensures  forall k K :: k != key ==> __in(d.state, k) == old(__in(d.state, k)) && d.state[k] == old(d.state[k])
+//@   modifies *
+
+//@ # staging a delete: the key now maps to a tombstone
+//@ func (d *delta[K, V]) stageDelete(key K)
+//@   tparams K Key, V comparable
+//@   requires DI(d)
+//@   ensures  DI(d)
+//@   ensures  __in(d.state, key) && d.state[key].deleted
+//@   ensures  forall k K :: k != key ==> __in(d.state, k) == old(__in(d.state, k)) && d.state[k] == old(d.state[k])
+//@   modifies *
